@@ -400,6 +400,8 @@ FRAGMENT_PROBES = [
     ("Nima.C03.cex_comment_overtakes", "C03", "[ x\n /* b */ /* c */ y ]"),
     ("Nima.C03.cex_comment_overtakes", "C03", "x\n# a\n/* b */ /* c */\n"),
     ("Nima.C03.cex_call_comment_reordered", "C03", "f/* a */ /* b */ x"),
+    ("Nima.C03.cex_comment_after_assert", "C03", "assert a; b # c\n"),
+    ("Nima.C03.cex_comment_after_assert", "C03", "(assert a; b /* c */)"),
     ("Nima.C18.cex_block_comment_after_opener", "C18", "{ /* c */ a = 1; }"),
     ("Nima.C18.cex_comment_after_open_paren", "C18", "[\n  ( /* c */ x)\n]"),
     ("Nima.C18.cex_comment_touching_function", "C18", "{\n  a = f/* c */ x;\n}"),
